@@ -226,6 +226,76 @@ def strip_inner_attrs(src, lo, hi, ed, rules):
         i += 1
 
 
+
+# ----------------------------------------------------------------------------------------------
+# R14: `for` loops this Verus build does not ingest (a `continue` inside, `.iter().enumerate()`,
+# `.iter().rev().enumerate()`, iteration over a `&Vec`) are written as the `while` loop the
+# standard library defines them to be.  Only the loop HEADER is rewritten; the body is verbatim.
+#   range          for PAT in LO..HI { B }                  -> let mut vx_iN = LO; let vx_hiN = HI;
+#                                                              while vx_iN < vx_hiN { let PAT = vx_iN; vx_iN += 1; B }
+#   enumerate      for PAT in E.iter().enumerate() { B }    -> let mut vx_iN: usize = 0; let vx_hiN = E.len();
+#                                                              while .. { let PAT = (vx_iN, &E[vx_iN]); vx_iN += 1; B }
+#   rev-enumerate  for PAT in E.iter().rev().enumerate()    -> .. let PAT = (vx_iN, &E[vx_hiN - 1 - vx_iN]); ..
+#   ref            for PAT in E { B }   (E: &Vec<T> / &[T]) -> .. let PAT = &(E)[vx_iN]; ..
+# The counter is advanced at the START of the body (exactly what `Range::next` / `Iter::next` do
+# before the body runs), so a `continue` in the body needs no rewriting.  ASSUMED (A-std): the
+# iteration protocol of Range<usize>, slice::Iter, Enumerate and Rev.
+# ----------------------------------------------------------------------------------------------
+def desugar_for(src, loop, n, kind, ed, rules, where):
+    s = src.sig
+    kw, lo_, _hi = loop
+    if s[kw].text != "for":
+        raise LostAnchor("%s: loop %d is not a `for` loop (R14)" % (where, n))
+    q = kw + 1
+    while q < lo_ and not src.is_id(q, "in"):
+        q = src.skip_group(q) if s[q].text in "([" else q + 1
+    if q >= lo_:
+        raise LostAnchor("%s: cannot find `in` of for loop %d (R14)" % (where, n))
+    pat = src.text[s[kw + 1].start:s[q - 1].end]
+    e0, e1 = q + 1, lo_          # token range of the iterated expression
+    def tail_is(names):
+        # the expression ends in .name1().name2()...
+        k = e1
+        for nm in reversed(names):
+            if not (src.is_p(k - 1, ")") and src.is_p(k - 2, "(") and src.is_id(k - 3, nm) and src.is_p(k - 4, ".")):
+                return None
+            k -= 4
+        return k
+    iv, hv = "vx_i%d" % n, "vx_hi%d" % n
+    if kind == "range":
+        d = None
+        k = e0
+        while k + 1 < e1:
+            if src.is_p(k, ".") and src.is_p(k + 1, ".") and s[k].end == s[k + 1].start:
+                d = k
+                break
+            k = src.skip_group(k) if s[k].text in "([{" else k + 1
+        if d is None or src.is_p(d + 2, "="):
+            raise LostAnchor("%s: for loop %d is not over a half-open range (R14)" % (where, n))
+        lo_txt = src.text[s[e0].start:s[d - 1].end]
+        hi_txt = src.text[s[d + 2].start:s[e1 - 1].end]
+        head = "let mut %s = %s; let %s = %s; while %s < %s " % (iv, lo_txt, hv, hi_txt, iv, hv)
+        bind = " let %s = %s; %s += 1; " % (pat, iv, iv)
+    elif kind in ("enumerate", "rev-enumerate"):
+        k = tail_is(["iter", "enumerate"] if kind == "enumerate" else ["iter", "rev", "enumerate"])
+        if k is None:
+            raise LostAnchor("%s: for loop %d does not iterate over .iter()%s.enumerate() (R14)" % (where, n, "" if kind == "enumerate" else ".rev()"))
+        ex = src.text[s[e0].start:s[k - 1].end]
+        head = "let mut %s: usize = 0; let %s: usize = %s.len(); while %s < %s " % (iv, hv, ex, iv, hv)
+        if kind == "enumerate":
+            bind = " let %s = (%s, &%s[%s]); %s += 1; " % (pat, iv, ex, iv, iv)
+        else:
+            bind = " let %s = (%s, &%s[%s - 1 - %s]); %s += 1; " % (pat, iv, ex, hv, iv, iv)
+    elif kind == "ref":
+        ex = src.text[s[e0].start:s[e1 - 1].end]
+        head = "let mut %s: usize = 0; let %s: usize = (%s).len(); while %s < %s " % (iv, hv, ex, iv, hv)
+        bind = " let %s = &(%s)[%s]; %s += 1; " % (pat, ex, iv, iv)
+    else:
+        raise SpecError("%s: unknown desugar-for kind %r" % (where, kind))
+    ed.replace(s[kw].start, s[lo_].start, head, 2)
+    ed.insert(s[lo_].end, bind, 0)
+    rules["R14"] = rules.get("R14", 0) + 1
+
 # ----------------------------------------------------------------------------------------------
 # output builder with line map
 # ----------------------------------------------------------------------------------------------
@@ -275,12 +345,12 @@ DIR_RE = re.compile(r"^\s*//@\s*(\S+)\s*(.*)$")
 def split_target(arg):
     """'src/x.rs :: impl A for B :: f  props: C01 ret: r' -> (file, parts, opts)"""
     opts = {}
-    m = re.search(r"\s+(props|ret|keep|retarget|derive|flags|iter|nth|drop|as|subst):", arg)
+    m = re.search(r"\s+(props|ret|keep|retarget|derive|flags|iter|nth|drop|as|subst|retype):", arg)
     optstr = ""
     if m:
         optstr = arg[m.start():]
         arg = arg[:m.start()]
-    for om in re.finditer(r"(props|ret|keep|retarget|derive|flags|iter|nth|drop|as|subst):\s*(.*?)(?=\s+(?:props|ret|keep|retarget|derive|flags|iter|nth|drop|as|subst):|$)", optstr):
+    for om in re.finditer(r"(props|ret|keep|retarget|derive|flags|iter|nth|drop|as|subst|retype):\s*(.*?)(?=\s+(?:props|ret|keep|retarget|derive|flags|iter|nth|drop|as|subst|retype):|$)", optstr):
         opts[om.group(1)] = om.group(2).strip()
     parts = [p.strip() for p in arg.split("::")]
     # re-join '::' inside impl headers / paths is not supported: headers use single ':' rarely.
@@ -366,7 +436,7 @@ class Generator:
                         if c2 == "endfn":
                             break
                         if c2 in ("sig", "loop", "body-start", "body-end", "loop-start", "loop-end",
-                                  "before", "after", "replace-type", "decl", "closure", "opaque-closure"):
+                                  "before", "after", "replace-type", "decl", "closure", "opaque-closure", "desugar-for"):
                             cur = {"cmd": c2, "arg": a2, "lines": [], "line0": j + 2}
                             sections.append(cur)
                         else:
@@ -725,6 +795,19 @@ class Generator:
                     rules["R3"] = rules.get("R3", 0) + 1
                     q += 3 * (len(at) - 1)
                 q += 1
+        # R9b (`retype: <type text> => <stand-in type>`): a parameter type of the SIGNATURE that this
+        # Verus build does not ingest (`Box<dyn Trait<Assoc = T>>`) is retargeted to the stand-in the
+        # struct field of that type is retargeted to; matched as text, whitespace-insensitive.
+        if "retype" in opts and "=>" in opts["retype"]:
+            a, b = [x.strip() for x in opts["retype"].split("=>", 1)]
+            rx = re.compile(r"\s*".join(re.escape(tok) for tok in re.findall(r"\w+|[^\w\s]", a)))
+            sig_lo, sig_hi = s[it.kw].start, s[it.body_open].start
+            hits = list(rx.finditer(src.text, sig_lo, sig_hi))
+            if not hits:
+                raise LostAnchor("%s: signature of %s has no type %s (retype)" % (file, path[-1], a))
+            for h in hits:
+                ed.replace(h.start(), h.end(), b, 4)
+                rules["R9"] = rules.get("R9", 0) + 1
         # expected signature check
         want_sig = None
         for sec in sections:
@@ -771,7 +854,7 @@ class Generator:
         probe_points = []
         for sec in sections:
             text = "\n".join(sec["lines"]).rstrip()
-            if not text.strip() and sec["cmd"] not in ("sig",):
+            if not text.strip() and sec["cmd"] not in ("sig", "desugar-for"):
                 continue
             cmd = sec["cmd"]
             sarg = sec["arg"]
@@ -806,11 +889,16 @@ class Generator:
                 q = blo
                 while q < bhi:
                     if src.is_p(q, "|") and (src.is_p(q - 1, "(") or src.is_p(q - 1, ",")) and src.is_id(q + 1) and src.is_p(q + 2, "|"):
-                        cl.append(q)
+                        cl.append((q, q + 2, None))
+                    elif src.is_p(q, "|") and (src.is_p(q - 1, "(") or src.is_p(q - 1, ",")) and src.is_p(q + 1, "(") \
+                            and src.is_p(src.match[q + 1] + 1, "|"):
+                        # R11 with a tuple pattern `|(a, b)| body`: the typed header names the argument
+                        # `vx_arg` and the pattern is bound by `let (a, b) = vx_arg;` in front of the body
+                        cl.append((q, src.match[q + 1] + 1, src.text[s[q + 1].start:s[src.match[q + 1]].end]))
                     q += 1
                 if n < 1 or n > len(cl):
                     raise LostAnchor("%s: %s has %d simple closures, directive names closure %d" % (file, path[-1], len(cl), n))
-                c0 = cl[n - 1]
+                c0, c_end, c_pat = cl[n - 1]
                 # closing parenthesis of the call the closure is an argument of
                 depth, q = 0, c0 - 1
                 while q >= blo:
@@ -822,11 +910,17 @@ class Generator:
                         depth -= 1
                     q -= 1
                 close = src.match[q]
-                ed.replace(s[c0].start, s[c0 + 2].end, text.strip() + " {", 1)
+                ed.replace(s[c0].start, s[c_end].end, text.strip() + " {" + ((" let %s = vx_arg; " % c_pat) if c_pat else ""), 1)
                 ed.insert(s[close].start, " }", 1)
                 rules["R11"] = rules.get("R11", 0) + 1
             elif cmd == "body-start":
                 ed.insert(body_text_start, "\n" + tagged + "\n", 1)
+            elif cmd == "desugar-for":
+                am = re.match(r"(\d+)\s+(\S+)", sarg)
+                n = int(am.group(1))
+                if n < 1 or n > len(loops):
+                    raise LostAnchor("%s: %s has %d loops, directive names loop %d" % (file, path[-1], len(loops), n))
+                desugar_for(src, loops[n - 1], n, am.group(2), ed, rules, "%s :: %s" % (file, path[-1]))
             elif cmd == "body-end":
                 ed.insert(s[bhi].start, "\n" + tagged + "\n", 1)
             elif cmd in ("loop-start", "loop-end"):
